@@ -132,15 +132,19 @@ func (r *gatewayController) buildDesiredHTTPRoute(rules []gatewayv1beta1.HTTPRou
 	if weight != nil && *weight == -1 {
 		for i := range rules {
 			rule := rules[i]
+			_, canaryRef := getServiceBackendRef(rule, r.conf.CanaryService)
 			filterOutServiceBackendRef(&rule, r.conf.CanaryService)
 			_, stableRef := getServiceBackendRef(rule, r.conf.StableService)
 			if stableRef != nil {
 				stableRef.Weight = utilpointer.Int32(1)
 				setServiceBackendRef(&rule, *stableRef)
 			}
-			if len(rule.BackendRefs) != 0 {
-				desired = append(desired, rule)
+			// a rule whose only backend was the canary Service was generated by a match step: drop it;
+			// a rule the user wrote without any backend (e.g. a redirect) is kept
+			if canaryRef != nil && len(rule.BackendRefs) == 0 {
+				continue
 			}
+			desired = append(desired, rule)
 		}
 		return desired
 		// according to the Gateway API definition, weight and headers cannot be supported at the same time.
